@@ -209,6 +209,25 @@ def run_srv(eng, case):
                         out.append(f'free {kind} {idx}')
                     else:
                         out.append('skip')
+                elif w[0] == 'refuse':
+                    # a constructor call that must be refused: afterwards every allocator is as it was
+                    try:
+                        if w[1] == 'sendlist':
+                            Buffer.new_send_list([0.5, 'x', None], 1, s)
+                        elif w[1] == 'loadlist':
+                            Buffer.new_load_list([[0.5], 0.25], 1, s)
+                        elif w[1] == 'noframes':
+                            Buffer(None, 1, s)
+                        elif w[1] == 'abus':
+                            AudioBus('x', s)
+                        else:
+                            ControlBus(None, s)
+                        res = 'returned'
+                    except Exception:
+                        res = 'raised'
+                    used = [len(getattr(s, n).blocks()) for n in
+                            ('_control_bus_allocator', '_audio_bus_allocator', '_buffer_allocator')]
+                    out.append(f'refuse {res} #{used[0]},{used[1]},{used[2]}')
                 elif w[0] == 'bfreeall':
                     Buffer.free_all(s)
                     objs[2] = []       # the objects are stale now (free_all does not reset them): not used again
